@@ -26,6 +26,36 @@ CANON_MD_KEYS = ["bid_price", "ask_price", "bid_vol", "ask_vol", "trade_vol"] + 
     "%s_%d" % (p, i) for p in ("bid_vol", "ask_vol", "n_bid", "n_ask") for i in range(10)]
 
 
+CANON_HEAD = ["trade_vol", "bid_price", "ask_price", "bid_vol", "ask_vol", "bid_touch_vol", "n_bid_touch", "ask_touch_vol", "n_ask_touch"]
+CANON_TAIL = ["bid_vol_level", "n_bid_level", "ask_vol_level", "n_ask_level"]
+# documented layout per (class name, method): {"head": [...quantity keys...], "tail": [...per-level keys...]}; filled by
+# doc_tables() from the live docstrings, so the arrays are judged against what the documentation assigns to each index
+LAYOUTS = {}
+
+
+def classify(desc):
+    """Map a documented row description to the quantity it names (None if it cannot be told)."""
+    d = desc.lower()
+    if "trade" in d:
+        return "trade_vol"
+    side = "bid" if re.search(r"\b(bid|buy)", d) else ("ask" if re.search(r"\b(ask|sell)", d) else None)
+    if side is None:
+        return None
+    is_count = bool(re.search(r"number|count|orders", d))
+    level = "level" in d
+    if is_count:
+        return ("n_%s_level" if level else "n_%s_touch") % side
+    if "price" in d and "vol" not in d:
+        return side + "_price"
+    if "vol" in d:
+        if level:
+            return side + "_vol_level"
+        if "touch" in d or "best" in d:
+            return side + "_touch_vol"
+        return side + "_vol"
+    return None
+
+
 def norm(x):
     if isinstance(x, np.ndarray):
         return [norm(v) for v in x.tolist()]
@@ -64,13 +94,18 @@ def doc_tables():
                           (bourse.core.StepEnvNumpy, "level_1_data", False), (bourse.core.StepEnvNumpy, "level_2_data", True)]:
         doc = getattr(cls, meth).__doc__ or ""
         table = {int(k): v for k, v in row.findall(doc)}
-        want = DOC_L2_HEAD if l2 else DOC_L1
-        if table != want:
-            out["problems"].append("%s.%s: documented index table %r differs from the checker's %r" % (cls.__name__, meth, table, want))
+        n_head = 5 if l2 else 9
+        head = [classify(table.get(i, "")) for i in range(n_head)]
+        tailk = [classify(t) for t in tail.findall(doc)] if l2 else []
+        ok = sorted(table.keys()) == list(range(n_head)) and None not in head and len(set(head)) == n_head and set(head) <= set(CANON_HEAD)
         if l2:
-            names = [t for t in tail.findall(doc)]
-            if names != DOC_L2_TAIL:
-                out["problems"].append("%s.%s: documented per-level rows %r differ from %r" % (cls.__name__, meth, names, DOC_L2_TAIL))
+            ok = ok and sorted(tailk) == sorted(CANON_TAIL)
+        if not ok:
+            out["problems"].append("%s.%s: documented index table %r / per-level rows %r could not be mapped to quantities" % (cls.__name__, meth, table, tailk))
+        else:
+            LAYOUTS[(cls.__name__, meth)] = {"head": head, "tail": tailk}
+            if head != CANON_HEAD[:n_head] or (l2 and tailk != CANON_TAIL):
+                out.setdefault("layout_differs_from_pinned", []).append("%s.%s" % (cls.__name__, meth))
         out["%s.%s" % (cls.__name__, meth)] = table
     keyrow = re.compile(r"\|\s*``([a-z_<>N]+)``\s*\|")
     for cls in (bourse.core.StepEnv, bourse.core.StepEnvNumpy):
@@ -124,7 +159,8 @@ class SelfOracle:
     Order tuples: (side, status, arr_time, end_time, vol, start_vol, price, trader_id, order_id); trade tuples:
     (time, side, price, vol, active_id, passive_id)."""
 
-    def __init__(self, ctor):
+    def __init__(self, ctor, cls_name="StepEnv"):
+        self.cls_name = cls_name
         _, self.t0, self.tick, self.step_size = ctor["args"][:4]
         self.steps = 0
         self.series = {k: [] for k in CANON_MD_KEYS}
@@ -160,10 +196,16 @@ class SelfOracle:
         if self.row is None:
             return None
         se = self.series
-        if m in ("level_1_data", "level_1_data_array"):
-            return self.row[:9]
-        if m in ("level_2_data", "level_2_data_array"):
-            return self.row
+        if m in ("level_1_data", "level_1_data_array", "level_2_data", "level_2_data_array"):
+            lay = LAYOUTS.get((self.cls_name, m), {"head": CANON_HEAD[:5 if "2" in m else 9], "tail": CANON_TAIL if "2" in m else []})
+            r = self.row
+            q = dict(zip(CANON_HEAD[:5], r[:5]))
+            q.update({"bid_touch_vol": r[5], "n_bid_touch": r[6], "ask_touch_vol": r[7], "n_ask_touch": r[8]})
+            out = [q[k] for k in lay["head"]]
+            for i in range(10 if lay["tail"] else 0):
+                lv = dict(zip(CANON_TAIL, r[5 + 4 * i: 9 + 4 * i]))
+                out += [lv[k] for k in lay["tail"]]
+            return out
         return {
             "get_prices": [se["bid_price"], se["ask_price"]], "get_volumes": [se["bid_vol"], se["ask_vol"]],
             "get_touch_volumes": [se["bid_vol_0"], se["ask_vol_0"]], "get_touch_order_counts": [se["n_bid_0"], se["n_ask_0"]],
@@ -174,7 +216,7 @@ class SelfOracle:
 def run_script(s, out):
     obj = make(s["kind"], s["ctor"])
     last_orders, last_trades = [], []
-    oracle = SelfOracle(s["ctor"]) if s.get("self_oracle") else None
+    oracle = SelfOracle(s["ctor"], {"stepenv": "StepEnv", "stepenvnumpy": "StepEnvNumpy"}.get(s["kind"], "StepEnv")) if s.get("self_oracle") else None
     diverged = False  # the object's state no longer follows the Rust twin (different shuffle): later values are not compared with it
     for ci, c in enumerate(s["calls"]):
         m = c["m"]
@@ -229,6 +271,11 @@ def run_script(s, out):
                             out["mismatches"].append({"script": s["id"], "call": ci, "m": m, "expected": pe, "got": got_n, "what": what, "oracle": "recomputed from get_orders/get_trades of the same object"})
                             return
                         out["self_oracle_checks"] += 1
+                if c.get("layout") and (oracle.cls_name, m) in LAYOUTS and (LAYOUTS[(oracle.cls_name, m)]["head"] != CANON_HEAD[:len(LAYOUTS[(oracle.cls_name, m)]["head"])] or LAYOUTS[(oracle.cls_name, m)]["tail"] not in ([], CANON_TAIL)):
+                    out["layout_checks"] += 1
+                    if c.get("asym"):
+                        out["asymmetric_layout_checks"] += 1
+                    continue
                 twin = exp["v"] if "keys" not in exp else None
                 if "keys" in exp:
                     twin_ok = all(got_n.get(k) == v for k, v in exp["v"].items())
